@@ -590,6 +590,10 @@ func (s *Sim) gwStep(g GwStep) {
 			svc = &knxnet.DiscRes{Channel: uint8(ch), Status: uint8(g.Status)}
 		case "connres":
 			svc = &knxnet.ConnRes{Channel: uint8(ch), Status: knxnet.ErrCode(g.Status)}
+		case "connres-stray":
+			// the late answer to a repeated connect request: the connection it "assigns" is the one already running
+			// (or a foreign one); the gateway keeps counting, and so must the client
+			svc = &knxnet.ConnRes{Channel: uint8(ch), Status: knxnet.NoError, Control: knxnet.HostInfo{Protocol: knxnet.UDP4}}
 		case "junk":
 			svc = &knxnet.RoutingInd{Payload: indMsg(g.Tag)}
 		}
